@@ -98,7 +98,7 @@ func main() {
 				doBytes(c, b, "replay", true)
 			}
 		case "deep":
-			doDeep(c, r.Codec, r.Depth, true)
+			doDeep(c, r.Codec, true)
 		default:
 			panic("unknown replay kind")
 		}
